@@ -108,9 +108,32 @@ def run(rep, tier):
         regs_ok = all(r['next'].get(k) == tconst(w, 0) for k, w in (('pc_q', 21), ('areg_q', 32), ('breg_q', 32), ('oreg_q', 32)))
         live = [w for w in r['writes'] if w[1] != F]
         rep.add('R1', 'reset:byte=0x%02X' % b, regs_ok and not live, 'verilog/processor.sv, verilog/memory.sv',
+                ('a simulation task fires during reset under a condition on the (randomised) power-on state: %s -- the run aborts or prints '
+                 'depending on the seed' % [(w[0], repr(w[1])[:120]) for w in live if w[0].startswith('$')]) if any(w[0].startswith('$') for w in live) else
                 ('memory write enabled during reset: %s' % [(w[0], repr(w[1])) for w in live]) if live else
                 ('registers under reset: %s' % {k: repr(v) for k, v in r['next'].items()}) if not regs_ok else 'registers cleared, write enable false',
                 nontrivial=(b >> 4) in (2, 8))
+    # R8: no architectural next state is an X the build resolves per seed
+    rep.rule('R8', 'no next-state function of an architectural register contains an X constant for any instruction byte while the build asks '
+             'Verilator to resolve X assignments with per-seed random values (--x-assign unique): an X that reaches a register is then a '
+             'hidden seed-dependent input that reset does not clear', floor=256)
+    from .. import frontend as _fe
+    from ..vlxml import _has_x
+    vargs = _fe._parse_verilate().get('args', [])
+    xa = None
+    for i_, t_ in enumerate(vargs):
+        if t_ == '--x-assign' and i_ + 1 < len(vargs):
+            xa = vargs[i_ + 1]
+        elif t_.startswith('--x-assign='):
+            xa = t_.split('=', 1)[1]
+    for b in range(256):
+        r, ev = c03.rtl_summary(d, top, b, 0)
+        xs = sorted(k for k, v in r['next'].items() if hasattr(v, 'terms') and _has_x(v))
+        rep.add('R8', 'x-free-next-state:byte=0x%02X' % b, not (xs and xa == 'unique'), 'verilog/processor.sv',
+                ('next state of %s contains an X for this instruction byte and the build resolves X assignments with --x-assign unique: the value '
+                 'differs from seed to seed' % xs) if xs and xa == 'unique' else
+                ('X in the next state of %s (resolved deterministically: --x-assign %s)' % (xs, xa or 'default') if xs else 'no X in any next state'),
+                nontrivial=bool(xs))
     # memory write is clocked only (a write block sensitive to the reset edge would fire with power-on garbage)
     mm = d.modules['memory']
     for ff in mm.ff:
